@@ -123,6 +123,14 @@ def check(ctx):
             hit = [t.fn for t in an.targets(f, n) if t.kind == "fn" and t.fn.cls is model.cls("Schema") and t.fn.name in CREATING and t.via != "name"]
             if hit:
                 impure.append((f, n, ("CREATING-ACCESSOR", None, hit[0].qualname)))
+            # getattr(x, "name"[, default]) is the attribute load x.name
+            if n.kind == "call" and isinstance(n.ast.func, ast.Name) and n.ast.func.id in ("getattr", "hasattr") and len(n.ast.args) >= 2 \
+                    and isinstance(n.ast.args[1], ast.Constant) and isinstance(n.ast.args[1].value, str):
+                ftf = an.ft(f)
+                bt = ftf.type_at(n, n.ast.args[0])
+                for tg in ftf.property_targets_on(bt, n.ast.args[1].value):
+                    if tg.cls is model.cls("Schema") and tg.name in CREATING:
+                        impure.append((f, n, ("CREATING-ACCESSOR", None, "%s via %s(x, %r)" % (tg.qualname, n.ast.func.id, n.ast.args[1].value))))
     if not impure:
         ctx.ob("pure", gs, "no write rooted at a parameter; no field-creating accessor", True,
                "the %d stub functions change neither schema nor configuration" % len(stub_fns))
@@ -202,20 +210,32 @@ def check(ctx):
                 if tr:
                     out |= set(spec)
         return out
+    from engine.specialize import Spec
+    _specs = {}
+
+    def spec_for(kind):
+        if kind not in _specs:
+            k = model.classes.get(kind)
+            field_var = None
+            tgt = head.ast.target
+            if isinstance(tgt, ast.Tuple) and len(tgt.elts) == 2 and isinstance(tgt.elts[1], ast.Name):
+                field_var = tgt.elts[1].id
+
+            def decide(e, node):
+                if isinstance(e, ast.Call) and isinstance(e.func, ast.Name) and e.func.id == "isinstance" and len(e.args) == 2 \
+                        and isinstance(e.args[0], ast.Name) and e.args[0].id == field_var:
+                    spec = ft.class_spec(e.args[1], (ft.env_in.get(node) if node is not None else None) or {}) or []
+                    if not spec or any(s not in model.classes for s in spec):
+                        return None
+                    return any(k.is_subclass_of(model.classes[s]) for s in spec)
+                return None
+            _specs[kind] = Spec(an, gs, decide)
+        return _specs[kind]
+
     def reachable_for(name, kind):
-        """can a field of *kind* be stored into table *name*?"""
-        k = model.classes.get(kind)
-        for n in stores.get(name, []):
-            ok = True
-            for spec, tr in branch_kinds(n):
-                is_k = any(s in model.classes and k.is_subclass_of(model.classes[s]) for s in spec)
-                if tr and not is_k:
-                    ok = False
-                if not tr and is_k:
-                    ok = False
-            if ok:
-                return True
-        return False
+        """can a field of *kind* be stored into table *name*?  (generate_stub specialised for that kind of field)"""
+        sp = spec_for(kind)
+        return any(n in sp.normal for n in stores.get(name, []))
     okc = bool(class_tables) and all(reachable_for(t, "VirtualField") and reachable_for(t, "StringField") and not reachable_for(t, "InstanceMethodField")
                                     for t in class_tables)
     ctx.ob("partition.attributes-include-virtual", gs, "class body table(s) %s" % sorted(class_tables), okc,
@@ -229,6 +249,18 @@ def check(ctx):
     okm = bool(method_tables) and all(reachable_for(t, "InstanceMethodField") and not reachable_for(t, "StringField") for t in method_tables)
     ctx.ob("partition.methods", gs, "method table(s) %s" % sorted(method_tables), okm, "one method per instance-method field" if okm else
            "instance methods are not rendered from their own table")
+    # the class body is never empty: the constructor line is emitted on every path (a schema without persistent fields
+    # still needs `def __init__(self): ...`, otherwise `class X(...):` has no body and the stub is not valid Python)
+    from engine.flow import must_pass
+    ctor_nodes = {n for n in g.nodes if n.ast is not None and n.kind in ("assign", "call", "expr") and any(
+        isinstance(x, ast.Constant) and isinstance(x.value, str) and "def __init__(" in x.value for x in ast.walk(n.ast))}
+    ctx.need(bool(ctor_nodes), "generate_stub no longer emits a constructor line")
+    for r in [n for n in g.nodes if n.kind == "return"]:
+        p = must_pass(an, gs, r, lambda n: n in ctor_nodes)
+        ctx.ob("ctor.always-declared", gs, r.ast, p is None,
+               "the constructor is declared whatever the schema contains (the class body is never empty)" if p is None else
+               "the constructor line can be skipped (%s): a schema without persistent fields yields `class X(...):` with no body -- not valid Python"
+               % " -> ".join("%s@%s" % (x.kind, x.lineno) for x in p[:6]), node=r)
     gma = model.function("stubs", "get_method_annotation")
     rendered = any(n.kind == "call" and gma in an.callees(gs, n) for n in g.nodes)
     ctx.ob("methods.rendered", gs, "get_method_annotation(key, field) for every method", rendered, "each instance method is rendered" if rendered else
